@@ -1,4 +1,349 @@
-(** Properties_C13.v — statements only (stub while the pipeline is brought up). *)
-From LC Require Import IdsDefs.
-Theorem C13_stub : True. Proof. exact I. Qed.
-Print Assumptions C13_stub.
+(** Properties_C13.v — C13 "Identifier assignment is complete, unique and non-destructive": statements only.
+
+    Model: IdsDefs.v (annotator.cpp / utilities.cpp / printer.cpp, as cited there).  [cfg] names the three repairs
+    of fixes/C13-*.diff; the theorems that need a repair carry the corresponding flag as hypothesis, the
+    [_refuted] theorems show the defect of the code without it (or a defect that remains: MathML ids, '=' in ids).
+    [get ids slot] is the identifier of a position ("" = none); [positions st] is the independent traversal of
+    all id-carrying positions outside MathML, [all_slots st] adds the ids inside MathML. *)
+From Coq Require Import String List NArith Arith Bool.
+From LC Require Import Common IdsDefs IdsProofs IdsProofs2 IdsProofs3 IdsProofs4 IdsHash IdsWitness.
+Import ListNotations.
+Open Scope string_scope.
+Open Scope list_scope.
+
+(* ---------------------------------------------------------------- the generator of identifiers *)
+
+Theorem C13_hex_injective : forall a b : N, hex a = hex b -> a = b.
+Proof. exact IdsProofs.hex_injective. Qed.
+Print Assumptions C13_hex_injective.
+
+Theorem C13_hex_nonempty : forall n : N, hex n <> "".
+Proof. exact IdsProofs.hex_nonempty. Qed.
+Print Assumptions C13_hex_nonempty.
+
+Example C13_hex_b4da55 : hex 0xb4da55 = "b4da55" /\ hex 255 = "ff" /\ hex 0 = "0".
+Proof. vm_compute. repeat split; reflexivity. Qed.
+Print Assumptions C13_hex_b4da55.
+
+(* pigeonhole: the loop of makeUniqueId stops within |id list| + 1 candidates *)
+Theorem C13_make_unique_terminates : forall cache n, snd (make_unique cache n) = true.
+Proof. exact IdsProofs.make_unique_terminates. Qed.
+Print Assumptions C13_make_unique_terminates.
+
+Theorem C13_make_unique_fresh : forall cache n id m ok,
+  make_unique cache n = (id, m, ok) ->
+  ok = true /\ ~ In id (keys_of cache) /\ id = hex m /\ id <> "" /\ (n <= m)%N.
+Proof. exact IdsProofs.make_unique_fresh. Qed.
+Print Assumptions C13_make_unique_fresh.
+
+(* no fuelled loop of the model ever runs out of fuel, whatever the history (so no result below is a fuel artefact) *)
+Theorem C13_no_fuel_exhaustion : forall c st h ids, a_err (s_ann (fst (run c st (init ids) h))) = false.
+Proof. exact IdsProofs2.run_no_error. Qed.
+Print Assumptions C13_no_fuel_exhaustion.
+
+(* ---------------------------------------------------------------- assignAllIds *)
+
+(* complete: every position assignAllIds is responsible for (all but the component_ref of a top-level component
+   without children, which has no element) holds an identifier afterwards *)
+Theorem C13_assign_complete : forall c st s,
+  a_has_model (s_ann s) = true -> slots_in_range st (length (s_ids s)) = true ->
+  forall p, In p (applicable_positions st) -> get (s_ids (fst (assign_all c st s))) (snd p) <> "".
+Proof. exact IdsProofs2.assign_all_complete. Qed.
+Print Assumptions C13_assign_complete.
+
+(* non-destructive *)
+Theorem C13_assign_preserves : forall c st s slot,
+  get (s_ids s) slot <> "" -> get (s_ids (fst (assign_all c st s))) slot = get (s_ids s) slot.
+Proof. exact IdsProofs2.assign_all_preserves. Qed.
+Print Assumptions C13_assign_preserves.
+
+(* fresh: for EVERY annotator state [s] (any id list, any stored hash, any counter) and every id vector -
+   i.e. whatever happened between setModel and the call - each newly assigned identifier differs from every
+   identifier present anywhere in the model at the time of the call, and from every other identifier of the
+   model after the call (in particular new identifiers are pairwise distinct). *)
+Theorem C13_assign_fresh : forall c st s,
+  fx_refresh c = true ->
+  a_has_model (s_ann s) = true -> slots_in_range st (length (s_ids s)) = true -> no_math_ids st (s_ids s) ->
+  let s' := fst (assign_all c st s) in
+  forall slot, get (s_ids s) slot = "" -> get (s_ids s') slot <> "" ->
+    (forall slot', In slot' (all_slots st) -> get (s_ids s) slot' <> get (s_ids s') slot) /\
+    (forall slot', In slot' (all_slots st) -> slot' <> slot -> get (s_ids s') slot' <> get (s_ids s') slot).
+Proof. exact IdsProofs2.assign_all_fresh. Qed.
+Print Assumptions C13_assign_fresh.
+
+(* the same, spelled out for the state reached by an arbitrary history of operations *)
+Theorem C13_assign_fresh_after_any_history : forall c st h ids0,
+  fx_refresh c = true -> slots_in_range st (length ids0) = true ->
+  let s := fst (run c st (init ids0) h) in
+  a_has_model (s_ann s) = true -> no_math_ids st (s_ids s) ->
+  let s' := fst (assign_all c st s) in
+  forall slot, get (s_ids s) slot = "" -> get (s_ids s') slot <> "" ->
+    (forall slot', In slot' (all_slots st) -> get (s_ids s) slot' <> get (s_ids s') slot) /\
+    (forall slot', In slot' (all_slots st) -> slot' <> slot -> get (s_ids s') slot' <> get (s_ids s') slot).
+Proof. exact IdsProofs4.assign_all_fresh_after_any_history. Qed.
+Print Assumptions C13_assign_fresh_after_any_history.
+
+Theorem C13_assign_complete_after_any_history : forall c st h ids0,
+  slots_in_range st (length ids0) = true ->
+  let s := fst (run c st (init ids0) h) in
+  a_has_model (s_ann s) = true ->
+  forall p, In p (applicable_positions st) -> get (s_ids (fst (assign_all c st s))) (snd p) <> "".
+Proof. exact IdsProofs4.assign_all_complete_after_any_history. Qed.
+Print Assumptions C13_assign_complete_after_any_history.
+
+(* DESIGN row 20, the code before fixes/C13-refresh-before-assign.diff: setModel(m); c->setId("b4da55");
+   assignAllIds() gives the model the id b4da55 as well *)
+Theorem C13_assign_stale_refuted :
+  exists c st s, fx_refresh c = false /\
+    a_has_model (s_ann s) = true /\ slots_in_range st (length (s_ids s)) = true /\
+    (forall m, In m (math_slots st) -> get (s_ids s) m = "") /\
+    exists slot slot', get (s_ids s) slot = "" /\ In slot' (all_slots st) /\ slot' <> slot /\
+      get (s_ids (fst (assign_all c st s))) slot <> "" /\
+      get (s_ids s) slot' = get (s_ids (fst (assign_all c st s))) slot.
+Proof. exact IdsWitness.assign_stale_refuted. Qed.
+Print Assumptions C13_assign_stale_refuted.
+
+(* ... and exactly what that code needs: an id list that covers the model when the assignment starts *)
+Theorem C13_assign_fresh_partial : forall c st s,
+  a_has_model (s_ann s) = true -> slots_in_range st (length (s_ids s)) = true ->
+  Covered (listed_slots st) (pre_assign c st s) -> no_math_ids st (s_ids s) ->
+  let s' := fst (assign_all c st s) in
+  forall slot, get (s_ids s) slot = "" -> get (s_ids s') slot <> "" ->
+    (forall slot', In slot' (all_slots st) -> get (s_ids s) slot' <> get (s_ids s') slot) /\
+    (forall slot', In slot' (all_slots st) -> slot' <> slot -> get (s_ids s') slot' <> get (s_ids s') slot).
+Proof. exact IdsProofs2.assign_all_fresh_gen. Qed.
+Print Assumptions C13_assign_fresh_partial.
+
+(* DESIGN row 34 (known finding C13-mathml-ids-invisible): the hypothesis no_math_ids cannot be dropped *)
+Theorem C13_assign_fresh_math_refuted :
+  exists st s, a_has_model (s_ann s) = true /\ slots_in_range st (length (s_ids s)) = true /\
+    exists slot m, In m (math_slots st) /\ get (s_ids s) slot = "" /\
+      get (s_ids (fst (assign_type cfg_fixed st KModel s))) slot <> "" /\
+      get (s_ids s) m = get (s_ids (fst (assign_type cfg_fixed st KModel s))) slot.
+Proof. exact IdsWitness.assign_fresh_math_refuted. Qed.
+Print Assumptions C13_assign_fresh_math_refuted.
+
+(* ---------------------------------------------------------------- assignIds(type) *)
+
+Theorem C13_assign_type_complete : forall c st k s,
+  a_has_model (s_ann s) = true -> slots_in_range st (length (s_ids s)) = true ->
+  forall p, In p (applicable_positions st) -> fst p = k -> get (s_ids (fst (assign_type c st k s))) (snd p) <> "".
+Proof. exact IdsProofs2.assign_type_complete. Qed.
+Print Assumptions C13_assign_type_complete.
+
+Theorem C13_assign_type_preserves : forall c st k s slot,
+  get (s_ids s) slot <> "" -> get (s_ids (fst (assign_type c st k s))) slot = get (s_ids s) slot.
+Proof. exact IdsProofs2.assign_type_preserves. Qed.
+Print Assumptions C13_assign_type_preserves.
+
+(* only positions of the requested kind receive identifiers *)
+Theorem C13_assign_type_only_kind : forall c st k s slot,
+  get (s_ids (fst (assign_type c st k s))) slot <> get (s_ids s) slot ->
+  exists v, In v (assign_type_visits st k) /\ v_slot v = slot /\ v_kind v = k.
+Proof. exact IdsProofs2.assign_type_only_kind. Qed.
+Print Assumptions C13_assign_type_only_kind.
+
+Theorem C13_assign_type_fresh : forall c st k s,
+  fx_refresh c = true ->
+  a_has_model (s_ann s) = true -> slots_in_range st (length (s_ids s)) = true -> no_math_ids st (s_ids s) ->
+  let s' := fst (assign_type c st k s) in
+  forall slot, get (s_ids s) slot = "" -> get (s_ids s') slot <> "" ->
+    (forall slot', In slot' (all_slots st) -> get (s_ids s) slot' <> get (s_ids s') slot) /\
+    (forall slot', In slot' (all_slots st) -> slot' <> slot -> get (s_ids s') slot' <> get (s_ids s') slot).
+Proof. exact IdsProofs2.assign_type_fresh. Qed.
+Print Assumptions C13_assign_type_fresh.
+
+(* ---------------------------------------------------------------- assignId(item) *)
+
+(* the item receives the returned (non-empty) identifier, nothing else changes, and the identifier differs from
+   every identifier present in the model at the time of the call *)
+Theorem C13_assign_item : forall c st v s,
+  fx_refresh c = true ->
+  a_has_model (s_ann s) = true -> v_slot v < length (s_ids s) ->
+  let r := assign_item c st v s in
+  let s' := fst r in
+  get (s_ids s') (v_slot v) = snd r /\ snd r <> "" /\
+  (forall slot, slot <> v_slot v -> get (s_ids s') slot = get (s_ids s) slot) /\
+  (forall slot', In slot' (listed_slots st) -> get (s_ids s) slot' <> snd r) /\
+  (no_math_ids st (s_ids s) -> forall slot', In slot' (all_slots st) -> get (s_ids s) slot' <> snd r).
+Proof. exact IdsProofs2.assign_item_spec. Qed.
+Print Assumptions C13_assign_item.
+
+(* ---------------------------------------------------------------- look-ups *)
+
+(* the annotator's traversal meets exactly the positions of the independent traversal *)
+Theorem C13_traversal_meets_all_positions : forall st p,
+  In p (map vpos (list_visits st)) <-> In p (positions st).
+Proof. exact IdsProofs.listing_positions. Qed.
+Print Assumptions C13_traversal_meets_all_positions.
+
+(* item(id) returns exactly the position carrying that id *)
+Theorem C13_lookup_exact : forall c st ids,
+  forall id e, item_of (build_cache c st ids) id = Some e ->
+    e_id e = id /\ id <> "" /\ get ids (e_slot e) = id /\ In (epos e) (positions st) /\
+    forall p, In p (positions st) -> get ids (snd p) = id -> p = epos e.
+Proof. exact IdsProofs3.item_exact. Qed.
+Print Assumptions C13_lookup_exact.
+
+(* ... and does return it when the id is unique *)
+Theorem C13_lookup_found : forall c st ids, visits_once c st = true ->
+  forall id p, id <> "" -> In p (positions st) -> get ids (snd p) = id ->
+    (forall q, In q (positions st) -> get ids (snd q) = id -> q = p) ->
+    exists e, item_of (build_cache c st ids) id = Some e /\ epos e = p.
+Proof. exact IdsProofs3.item_found. Qed.
+Print Assumptions C13_lookup_found.
+
+(* behaviour on duplicates, as coded: item(id) finds nothing, item(id, index) a carrier *)
+Theorem C13_lookup_duplicate : forall c st ids,
+  forall id p q, In p (positions st) -> In q (positions st) -> p <> q ->
+    get ids (snd p) = id -> get ids (snd q) = id -> item_of (build_cache c st ids) id = None.
+Proof. exact IdsProofs3.item_duplicate. Qed.
+Print Assumptions C13_lookup_duplicate.
+
+Theorem C13_lookup_index : forall c st ids id i e, item_index_of (build_cache c st ids) id i = Some e ->
+  e_id e = id /\ get ids (e_slot e) = id /\ In (epos e) (positions st).
+Proof. exact IdsProofs3.item_index_carrier. Qed.
+Print Assumptions C13_lookup_index.
+
+(* ids(), itemCount() and duplicateIds() equal the independent traversal *)
+Theorem C13_ids_agree_with_traversal : forall c st ids x,
+  In x (ids_of (build_cache c st ids)) <-> x <> "" /\ exists p, In p (positions st) /\ get ids (snd p) = x.
+Proof. exact IdsProofs3.ids_exact. Qed.
+Print Assumptions C13_ids_agree_with_traversal.
+
+Theorem C13_item_count_agrees_with_traversal : forall c st ids, visits_once c st = true ->
+  forall x, x <> "" ->
+    item_count_of (build_cache c st ids) x = length (filter (carries ids x) (positions st)).
+Proof. exact IdsProofs3.item_count_exact. Qed.
+Print Assumptions C13_item_count_agrees_with_traversal.
+
+Theorem C13_duplicate_ids_agree_with_traversal : forall c st ids, visits_once c st = true ->
+  forall x, In x (duplicate_ids_of (build_cache c st ids)) <->
+            x <> "" /\ 2 <= length (filter (carries ids x) (positions st)).
+Proof. exact IdsProofs3.duplicate_ids_exact. Qed.
+Print Assumptions C13_duplicate_ids_agree_with_traversal.
+
+Theorem C13_ids_sorted_nodup : forall cache, NoDup (ids_of cache) /\ Sorted.StronglySorted str_lt (ids_of cache).
+Proof. exact IdsHash.ids_of_sorted. Qed.
+Print Assumptions C13_ids_sorted_nodup.
+
+(* a shared import source was listed once per importing entity (fixes/C13-shared-import-source.diff) *)
+Theorem C13_import_shared_refuted :
+  exists c st ids x, fx_import c = false /\
+    item_count_of (build_cache c st ids) x <> length (filter (fun p => String.eqb (get ids (snd p)) x) (positions st)).
+Proof. exact IdsWitness.import_shared_refuted. Qed.
+Print Assumptions C13_import_shared_refuted.
+
+(* update(): the id list is rebuilt exactly when the stored hash differs from the hash of the model *)
+Theorem C13_update_refreshes_iff_hash_changes : forall c st s, a_has_model (s_ann s) = true ->
+  (a_hash (s_ann s) = Some (hash_string c st (s_ids s)) -> update c st s = s) /\
+  (a_hash (s_ann s) <> Some (hash_string c st (s_ids s)) ->
+     a_cache (s_ann (update c st s)) = build_cache c st (s_ids s) /\
+     a_hash (s_ann (update c st s)) = Some (hash_string c st (s_ids s))).
+Proof. exact IdsProofs3.update_refreshes_iff_hash_changes. Qed.
+Print Assumptions C13_update_refreshes_iff_hash_changes.
+
+(* with the repairs, after ANY history the list a look-up consults is the list of the model as it is now,
+   provided the serialised string determines the list ... *)
+Theorem C13_lookups_current_after_any_history : forall c st h ids,
+  fx_refresh c = true ->
+  let s := fst (run c st (init ids) h) in
+  a_has_model (s_ann s) = true -> HashFaithfulAt c st (s_ids s) ->
+  a_cache (s_ann (update c st s)) = build_cache c st (s_ids s).
+Proof. exact IdsProofs4.lookups_current_after_any_history. Qed.
+Print Assumptions C13_lookups_current_after_any_history.
+
+(* ... which it does (with the hash repair) for all identifiers free of the character '=' *)
+Theorem C13_hash_faithful : forall c st ids ids0,
+  fx_hash c = true -> eq_free_vec ids -> eq_free_vec ids0 ->
+  hash_string c st ids0 = hash_string c st ids -> build_cache c st ids0 = build_cache c st ids.
+Proof. exact IdsHash.hash_faithful. Qed.
+Print Assumptions C13_hash_faithful.
+
+(* hence, with the three repairs: after ANY history of setModel / id edits / assign* / clearAllIds / look-ups whose
+   identifiers are free of '=', every look-up consults the id list of the model as it is NOW; the look-up theorems
+   above (C13_lookup_..., C13_ids_..., C13_item_count_..., C13_duplicate_ids_...) therefore describe its answers *)
+Theorem C13_lookups_current_for_all_histories : forall c st h ids,
+  fx_refresh c = true -> fx_hash c = true -> eq_free_vec ids -> Forall op_eq_free h ->
+  let s := fst (run c st (init ids) h) in
+  a_has_model (s_ann s) = true ->
+  a_cache (s_ann (update c st s)) = build_cache c st (s_ids s).
+Proof. exact IdsHash.lookups_current_eq_free. Qed.
+Print Assumptions C13_lookups_current_for_all_histories.
+
+(* DESIGN row 21, the code before fixes/C13-hash-equivalence-ids.diff: the hash ignored mapping and connection ids *)
+Theorem C13_hash_blind_refuted :
+  exists c st h ids slot, fx_hash c = false /\ fx_refresh c = true /\
+    let r := run c st (init ids) (h ++ [OIds]) in
+    In (KMap, slot) (positions st) /\ get (s_ids (fst r)) slot = "b4da55" /\ last (snd r) RNone = RStrs [].
+Proof. exact IdsWitness.hash_blind_refuted. Qed.
+Print Assumptions C13_hash_blind_refuted.
+
+(* found by this check, repaired by fixes/C13-refresh-before-assign.diff: assignId stored the hash of the model
+   BEFORE the assignment; a model that returns to that state was looked up in the list built AFTER it *)
+Theorem C13_lookup_after_assign_refuted :
+  exists st h ids, last (snd (run cfg_pinned st (init ids) (h ++ [OIds]))) RNone = RStrs ["b4da55"] /\
+                   forall slot, get (s_ids (fst (run cfg_pinned st (init ids) (h ++ [OIds])))) slot <> "b4da55".
+Proof. exact IdsWitness.lookup_after_assign_refuted. Qed.
+Print Assumptions C13_lookup_after_assign_refuted.
+
+(* known finding C13-hash-string-ambiguous: identifiers containing '=' can make two different models serialise
+   to the same string, so the hypothesis of C13_hash_faithful cannot be dropped *)
+Theorem C13_hash_ambiguous_refuted :
+  exists st a b, hash_string cfg_fixed st a = hash_string cfg_fixed st b /\
+                 build_cache cfg_fixed st a <> build_cache cfg_fixed st b.
+Proof. exact IdsWitness.hash_ambiguous_refuted. Qed.
+Print Assumptions C13_hash_ambiguous_refuted.
+
+(* ---------------------------------------------------------------- printer *)
+
+(* printModel(model, true): every element without an identifier receives a non-empty one that is not among the
+   identifiers of the model (outside MathML) and differs from every other generated one; all loops terminate *)
+Theorem C13_print_auto_ids_unique : forall st ids l ok, print_ids st ids = (l, ok) ->
+  ok = true /\ length l = length (print_positions st ids) /\
+  (forall p x, In (p, x) (combine (print_positions st ids) l) -> get ids (snd p) = "" ->
+     x <> "" /\ ~ In x (list_ids st ids)) /\
+  NoDup (map snd (filter (fun px => is_empty (get ids (snd (fst px)))) (combine (print_positions st ids) l))).
+Proof. exact IdsProofs3.print_ids_unique. Qed.
+Print Assumptions C13_print_auto_ids_unique.
+
+Theorem C13_print_list_ids_complete : forall st ids slot,
+  In slot (listed_slots st) -> get ids slot <> "" -> In (get ids slot) (list_ids st ids).
+Proof. exact IdsProofs3.list_ids_complete. Qed.
+Print Assumptions C13_print_list_ids_complete.
+
+(* existing identifiers are written unchanged; the model value is an input only (in the functional model the
+   argument cannot change: purity of the real printer is observed by the correspondence run) *)
+Theorem C13_print_auto_ids_pure : forall st ids l ok, print_ids st ids = (l, ok) ->
+  forall p x, In (p, x) (combine (print_positions st ids) l) -> get ids (snd p) <> "" -> x = get ids (snd p).
+Proof. exact IdsProofs3.print_ids_pure. Qed.
+Print Assumptions C13_print_auto_ids_pure.
+
+(* ---------------------------------------------------------------- non-vacuity *)
+
+Example C13_nonvacuous_assign :
+  let s := fst (run cfg_fixed st_eq (init ids10) [OEdit 4 "b4da56"; OSetModel; OEdit 2 "b4da55"]) in
+  a_has_model (s_ann s) = true /\ slots_in_range st_eq (length (s_ids s)) = true /\
+  (forall m, In m (math_slots st_eq) -> get (s_ids s) m = "") /\
+  s_ids (fst (assign_all cfg_fixed st_eq s)) =
+    ["b4da57"; "b4da5c"; "b4da55"; ""; "b4da56"; "b4da5a"; ""; "b4da5b"; "b4da59"; "b4da58"] /\
+  snd (assign_all cfg_fixed st_eq s) = true.
+Proof. exact IdsWitness.nonvacuous_all. Qed.
+Print Assumptions C13_nonvacuous_assign.
+
+Example C13_nonvacuous_wf : wf cfg_fixed st_eq 10 = true /\ wf cfg_fixed st_imp 7 = true /\ wf cfg_no_import st_imp 7 = false.
+Proof. exact IdsWitness.nonvacuous_wf. Qed.
+Print Assumptions C13_nonvacuous_wf.
+
+Example C13_nonvacuous_print :
+  print_ids st_eq ["m"; ""; "b4da55"; ""; ""; ""; ""; "b4da56"; ""; ""] =
+  (["m"; "b4da55"; "b4da57"; "b4da58"; "b4da56"; "b4da59"; "b4da5a"], true).
+Proof. exact IdsWitness.nonvacuous_print. Qed.
+Print Assumptions C13_nonvacuous_print.
+
+Example C13_repaired_histories :
+  (let s' := fst (run cfg_fixed st_one (init ids5) stale_history) in get (s_ids s') 0 = "b4da56" /\ get (s_ids s') 2 = "b4da55") /\
+  snd (run cfg_fixed st_eq (init ids10) [OSetModel; OEdit 8 "b4da55"; OIds]) = [RNone; RNone; RStrs ["b4da55"]] /\
+  item_count_of (build_cache cfg_fixed st_imp ids7) "imp" = 1.
+Proof. split; [exact IdsWitness.stale_fixed | split; [exact IdsWitness.hash_blind_fixed | exact (proj1 IdsWitness.import_shared_fixed)]]. Qed.
+Print Assumptions C13_repaired_histories.
